@@ -395,9 +395,9 @@ def search_rename(ctx: Ctx) -> SearchResult:
 	corpus_findings = len(res.findings)   # the cap on shrinking below counts generated findings only
 
 	# 2. generated programs × adversarial renamings
-	n_prog = ctx.scale(32, 125)
+	n_prog = ctx.scale(28, 125)
 	per_prog = ctx.scale(3, 5)
-	deadline = Deadline(ctx, 60, 480)
+	deadline = Deadline(ctx, 50, 480)
 	for n_done, (origin, src, tag) in enumerate(program_stream(ctx, rng, n_prog)):
 		if deadline.cut(hist, n_done, n_prog):
 			break
@@ -459,7 +459,7 @@ def search_rename(ctx: Ctx) -> SearchResult:
 	all_words = sorted({w for ws in word_sets for w in ws})
 	avoid = c08gen.emitter_vocabulary() | reserved.words
 	rounds = ctx.scale(1, 4)
-	spell_deadline = Deadline(ctx, 30, 240)
+	spell_deadline = Deadline(ctx, 25, 240)
 	spell_findings = 0
 	for n_done, (rnd, focus) in enumerate((a, ws) for a in range(rounds) for ws in word_sets):
 		if spell_deadline.cut(hist, n_done, rounds * len(word_sets)):
